@@ -267,6 +267,14 @@ def roundtrip(cls, obj, tag, tunables):
     if type(obj2) is not cls:
         problem(f"C08/{cname}/rebuilt-type-differs", f"{tag}: {type(obj2).__name__}")
         return
+    # the loaded dictionary is data: rebuilding must not consume or rewrite it (a second replica from the
+    # same dictionary must be possible and equal)
+    try:
+        obj2b = reg.from_dict(d2)
+        if encode(obj2b.to_dict()) != encode(obj2.to_dict()):
+            problem(f"C08/{cname}/second-from_dict-of-same-dictionary-differs", tag)
+    except Exception as e:  # noqa: BLE001
+        problem(f"C08/{cname}/second-from_dict-of-same-dictionary/exception:{type(e).__name__}", f"{tag}: {e}"[:300])
     names = [p for p in list(inspect.signature(cls.__init__).parameters)[1:]] + sorted(attr_names(cls)) + tunables
     seen = set()
     for n in names:
